@@ -9,6 +9,8 @@ def run(tier, seed, replay_path=None):
         return generic_replay(ck, replay_path)
     ck.engine()
     run_store_checks(ck, ['add', 'replace', 'append', 'prepend'], {'kind', 'value', 'flags', 'vis', 'frame', 'cas'}, K=2, tier=tier)
+    from .wire_rt import wire_roundtrip
+    wire_roundtrip(ck, tier, ('concat', 'store'))
     return ck.finish()
 
 
